@@ -115,6 +115,33 @@ def tsMeanRows (rows : List (List Int)) (w : Nat) : Option (List Int) :=
     let m := listMin rows.flatten
     some ((intMeanRows (rows.map fun r => r.map (· - m)) w w).map (m + ·))
 
+/-- Number of splits `_int_mean(axis=1)` performs along the reduced axis (the same for every row). -/
+def intMeanRowsSplits (rows : List (List Int)) (w : Nat) : Nat :=
+  if _h : anyCould rows w = true ∧ 2 ≤ w then
+    intMeanRowsSplits (rows.map (·.take (w / 2))) (w / 2) +
+      intMeanRowsSplits (rows.map (·.drop (w / 2))) (w - w / 2) + 1
+  else 0
+termination_by w
+decreasing_by all_goals omega
+
+/-- Every integer `_int_mean(axis=1)` computes on the way: per leaf block the row sums and the
+    quotients, per split the element-wise sums of the two partial means. -/
+def intMeanRowsTrace (rows : List (List Int)) (w : Nat) (total : Int) : List Int :=
+  if _h : anyCould rows w = true ∧ 2 ≤ w then
+    intMeanRowsTrace (rows.map (·.take (w / 2))) (w / 2) total ++
+      intMeanRowsTrace (rows.map (·.drop (w / 2))) (w - w / 2) total ++
+      List.zipWith (· + ·) (intMeanRows (rows.map (·.take (w / 2))) (w / 2) total)
+        (intMeanRows (rows.map (·.drop (w / 2))) (w - w / 2) total)
+  else (rows.map List.sum) ++ (rows.map fun r => r.sum / total)
+termination_by w
+decreasing_by all_goals omega
+
+/-- All intermediate integers of `timestamp_mean(a, axis=1)`. -/
+def tsMeanRowsTrace (rows : List (List Int)) (w : Nat) : List Int :=
+  let m := listMin rows.flatten
+  let sh := rows.map fun r => r.map (· - m)
+  sh.flatten ++ intMeanRowsTrace sh w w ++ (intMeanRows sh w w).map (m + ·)
+
 /-! ### info wave → pixels -/
 
 /-- A continuous info wave: sample `i` has timestamp `start + i·dt` and code `iw[i]`
@@ -361,6 +388,16 @@ def sumAnswer (w : Wave) (c : C01.Cont) (rs : List (Int × Int)) (block : Nat) (
     `RuntimeError("Can't get pixel timestamps if there are no pixels")` before reconstructing. -/
 def guardEmpty (w : Wave) (ans : String) : String := if w.iw = [] then "RuntimeError" else ans
 
+/-- `" T/F #splits"` for the per-pixel mean of a wave: every intermediate integer of
+    `timestamp_mean(pixel rows, axis=1)` fits int64, and the number of splits along a row. -/
+def pixSuffix (w : Wave) : String :=
+  match w.pixelSize with
+  | none => ""
+  | some k =>
+    let rows := rowsOf k w.usedTs
+    " " ++ showBool ((tsMeanRowsTrace rows k).all fitsI64) ++ " " ++
+      toString (intMeanRowsSplits (rows.map fun r => r.map (· - listMin rows.flatten)) k)
+
 def mkWave? (st dt iw : String) : Option Wave := do
   let st ← int? st; let dt ← int? dt; let iw ← natList? iw
   if dt ≤ 0 then none
@@ -369,8 +406,8 @@ def mkWave? (st dt iw : String) : Option Wave := do
 
 /-- ops (a wave is `start dt [codes]`):
   `c03.mean [a…]`                 `timestamp_mean`, then `T/F` = every intermediate fits int64, then #splits
-  `c03.meanrows w [r;r;…]`        `timestamp_mean(axis=1)`
-  `c03.kts   <wave> P`            `Kymo.timestamps`
+  `c03.meanrows w [r;r;…]`        `timestamp_mean(axis=1)`, then `T/F` = every intermediate fits int64, then #splits
+  `c03.kts   <wave> P`            `Kymo.timestamps`, then `T/F` = every intermediate of the per-pixel mean fits int64, then #splits
   `c03.krex  <wave> P`            `line_timestamp_ranges()` followed by the δ used
   `c03.krin  <wave> P`            `line_timestamp_ranges(include_dead_time=True)`
   `c03.klt / c03.kdur <wave> P`   line time / duration in ns;  `c03.pt <wave>` pixel time in ns
@@ -390,10 +427,19 @@ def handle : List String → Option String
     let w ← nat? w
     let rows ← intListList? rows
     if rows.any (·.length ≠ w) then none
-    else some (showErr showIntList "ValueError" (tsMeanRows rows w))
+    else
+      match tsMeanRows rows w with
+      | none => some "ValueError"
+      | some v =>
+        some (showIntList v ++ " " ++ showBool ((tsMeanRowsTrace rows w).all fitsI64) ++ " " ++
+          toString (intMeanRowsSplits (rows.map fun r => r.map (· - listMin rows.flatten)) w))
   | ["c03.kts", st, dt, iw, p] => do
     let w ← mkWave? st dt iw; let p ← nat? p
-    if p = 0 then none else some (guardEmpty w (showErr (showListList showInt) "ValueError" (w.kymoTimestamps p)))
+    if p = 0 then none
+    else
+      match w.kymoTimestamps p with
+      | none => some (guardEmpty w "ValueError")
+      | some img => some (guardEmpty w (showListList showInt img ++ pixSuffix w))
   | ["c03.krex", st, dt, iw, p] => do
     let w ← mkWave? st dt iw; let p ← nat? p
     if p = 0 then none
